@@ -4,14 +4,14 @@ CONSTANTS
   ResidueAfterFailure = FALSE
   ShortCookieRead = FALSE
   DialResetsData = FALSE
-  Alpns <- AlpnsQuic
-  Alphabet <- AlphaAll
-  CutRecs <- CutCore
+  Alpns <- AlpnsOk
+  Alphabet <- AlphaStall
+  CutRecs <- CutStall
   MaxRecs = 2
   MaxDials = 1
   MaxCalls = 1
   MaxStore = 0
   CtxMode = "ignored"
-  MaxStalls = 0
-  Tails = FALSE
-INVARIANTS Emit RunAgrees
+  MaxStalls = 1
+  Tails = TRUE
+INVARIANTS EmitStalled RunAgrees
